@@ -75,13 +75,19 @@ func (g *Gen) mutateTopo(prev Topology, gen int, ever map[string]bool) (Topology
 			rep.Master, rep.MasterID = true, ""
 			rep.Slots = t.Nodes[mi].Slots
 			t.Nodes[mi].Slots = nil
-			t.Nodes[mi].Flags = append(t.Nodes[mi].Flags, "fail")
 			for i := range t.Nodes {
 				if !t.Nodes[i].Master && t.Nodes[i].MasterID == t.Nodes[mi].ID {
 					t.Nodes[i].MasterID = rep.ID
 				}
 			}
-			what = "failover"
+			if g.R.Pct(50) {
+				t.Nodes[mi].Flags = append(t.Nodes[mi].Flags, "fail")
+				what = "failover"
+			} else {
+				// manual failover: the old master stays in the cluster as a replica of the new one (role swap)
+				t.Nodes[mi].Master, t.Nodes[mi].MasterID = false, rep.ID
+				what = "role-swap"
+			}
 		case 1: // a new master takes part of a range
 			mi := masters[g.R.Intn(len(masters))]
 			r := t.Nodes[mi].Slots[0]
@@ -228,15 +234,60 @@ func genC14(g *Gen) {
 		steps = g.R.Range(4, 8)
 	}
 	cur := base
+	if p.Variant == "flap" {
+		steps = []int{3, 3, 6, 4, 5}[g.R.Intn(5)]
+	}
 	for h := 1; h <= steps; h++ {
 		nt, what := g.mutateTopo(cur, h, ever)
 		if g.R.Pct(40) {
 			nt2, w2 := g.mutateTopo(nt, h+20, ever)
 			nt, what = nt2, what+"+"+w2
 		}
+		if p.Variant == "flap" {
+			// A -> B (other node count) -> C (A's node count again, different content) -> A -> ...: descriptions come back
+			switch h % 3 {
+			case 1:
+				nt = cloneTopo(cur)
+				nt.Nodes = append(nt.Nodes, NodeDesc{ID: fmt.Sprintf("%040x", 0xe500+h), Addr: fmt.Sprintf("10.2.%d.1:7000", h), MasterID: cur.Nodes[0].ID})
+				ever[nt.Nodes[len(nt.Nodes)-1].Addr] = true
+				what = "flap:new-replica"
+			case 2:
+				nt = cloneTopo(p.Topos[h-2])
+				var masters []int
+				for i, n := range nt.Nodes {
+					if n.Master && len(n.Slots) > 0 && usableDesc(&nt.Nodes[i]) {
+						masters = append(masters, i)
+					}
+				}
+				a, b := masters[0], masters[len(masters)-1]
+				r := nt.Nodes[a].Slots[len(nt.Nodes[a].Slots)-1]
+				if r[1]-r[0] > 3 {
+					cut := g.R.Range(r[0]+1, r[1])
+					nt.Nodes[a].Slots[len(nt.Nodes[a].Slots)-1] = [2]int{r[0], cut - 1}
+					nt.Nodes[b].Slots = append(nt.Nodes[b].Slots, [2]int{cut, r[1]})
+				}
+				what = "flap:same-count-slots-moved"
+			case 0:
+				nt = cloneTopo(p.Topos[h-3])
+				what = "flap:back-to-earlier"
+			}
+		} else if h >= 2 && g.R.Pct(20) {
+			back := g.R.Intn(h - 1)
+			nt, what = cloneTopo(p.Topos[back]), fmt.Sprintf("revert-to-%d", back)
+		}
 		p.Topos = append(p.Topos, nt)
 		hs := HistStep{Topo: h, Secs: g.R.Range(2, 5), Mutated: what}
-		if g.R.Pct(30) {
+		if g.R.Pct(35) {
+			hs.Secs = 1 // the description is in force for about one probe only
+		}
+		if p.Variant == "flap" {
+			// the two intermediate descriptions are each in force for one probe period, the returning one for longer
+			hs.Secs = 1
+			if h%3 == 0 {
+				hs.Secs = g.R.Range(2, 4)
+			}
+		}
+		if g.R.Pct(30) && p.Variant != "flap" {
 			for _, n := range cur.Nodes {
 				if g.R.Pct(40) {
 					hs.Lag = append(hs.Lag, n.Addr)
@@ -406,6 +457,16 @@ func runC14(d *Driver, res *Result) {
 		d.violate("C14", "refresh-stalled", det, "every node is reachable and serves the final description, but the proxy consumed no probe reply for 30 fake seconds (last unusable answer kind: %s)", lastKind)
 		return
 	}
+	// nodes the proxy may already know from an earlier description without the INFO restriction applying
+	everAdmitted := map[string]bool{}
+	for ti := 0; ti < len(p.Topos)-1; ti++ {
+		for i := range p.Topos[ti].Nodes {
+			n := &p.Topos[ti].Nodes[i]
+			if usableDesc(n) && (n.Master || (!n.Loading && !n.LinkDown)) {
+				everAdmitted[n.Addr] = true
+			}
+		}
+	}
 	// route probing
 	c := d.Clients[0]
 	d.Hold[0] = false
@@ -468,12 +529,22 @@ func runC14(d *Driver, res *Result) {
 				ok, why = false, "flagged "+strings.Join(node.Flags, ",")+" link="+node.Link
 			}
 		}
-		if ok && (node.Loading || node.LinkDown) {
+		if ok && (node.Loading || node.LinkDown) && !everAdmitted[node.Addr] {
+			// the statement excludes *newly discovered* replicas in that state; one the proxy already knew from an earlier
+			// description (as a master, or as a healthy replica) is not re-examined, either outcome is accepted for it
 			ok, why = false, "newly discovered replica that is loading / has its master link down"
 		}
 		if !ok {
 			d.violate("C14", "stale-route", mapWith(det, "how", "forbidden-replica"), "read for slot %d (owner %s) went to %s: %s", slot, owner.Addr, first.Node, why)
 			break
+		}
+	}
+	if len(d.Viol) == 0 {
+		for _, r := range d.C.Log[mark:] {
+			if r.Kind == "redirect" && len(r.Tokens) > 0 {
+				d.violate("C14", "stale-route", mapWith(det, "how", "redirected-after-convergence"), "%s for %q was sent to %s, which answered %q although every node has been serving the final description for more than 3 s", r.Name, clip(keysFirst(r), 40), r.Node, clip(r.Reply, 50))
+				break
+			}
 		}
 	}
 	d.Counters["c14_history_steps"] = len(p.Hist)
